@@ -147,11 +147,12 @@ EXTRA = {
     "C03": " Also: DecisionTreeLogisticRegression fitted twice trains every node classifier once and never its estimator parameter; PiecewiseTreeRegressor's leaf regressions follow a second tree with as many leaves under other node ids.",
     "C04": " Also: two symbolic rows at the ends of a 600-row batch (transform_bins) and inside a 12-row batch (KMeansL1L2.predict, ties included) give what they give alone; a ConstraintKMeans with symbolic learned cluster weights and its clone_with_fitted_parameters copy answer the same transform/score.",
     "C05": " Also: score on a column target at q=0.5; integer-typed weights (multiplicities) in the repetition lemma; the step lemma on an estimator built with the defaults and configured through set_params.",
-    "C06": " Also: caller-supplied centres anywhere (max_iter 1-2, symbolic tolerance; range clause for the centres that own a point); with norm='L2' KMeans.fit finds on the object exactly the constructor's parameters (symbolic k, n_init, max_iter, tol, seed) and get_params reports them.",
+    "C01": " ConstraintKMeans(init=array, n_init=n) reports and clones what it was given.",
+    "C06": " Two symbolic rows at the end of a 1030-row batch (predict, transform) equal the rows alone. Also: caller-supplied centres anywhere (max_iter 1-2, symbolic tolerance; range clause for the centres that own a point); with norm='L2' KMeans.fit finds on the object exactly the constructor's parameters (symbolic k, n_init, max_iter, tol, seed) and get_params reports them.",
     "C07": " Also: n_iter_ <= max_iter through the real fit loop with KMeans.fit as its contract and arbitrary inertia per iteration (max_iter <= 5/9), every association of fit with quota n//k and leftover n-k*quota whatever the initial labels; balanced predictions on a batch of SYMBOLIC size (k <= n <= 100000): one association over all rows with that quota.",
-    "C08": " Also: a real KBinsDiscretizer subclass as binner (documented routing rule on symbols, validated against the parent class): a symbolic row, exactly on an edge included, is predicted by the model of the cell the binner puts it in.",
+    "C08": " The fallback model is a clone of the estimator parameter too; a classifier's label is its bucket model's predict. Also: a real KBinsDiscretizer subclass as binner (documented routing rule on symbols, validated against the parent class): a symbolic row, exactly on an edge included, is predicted by the model of the cell the binner puts it in.",
     "C09": " Also: the least-squares driver must be given its documented workspace; a zero weight inside the range (C division semantics); leaf regressions after a refit on a tree with other node ids; checked on the compiled code: rank-deficient leaves and leaves of 2-5 rows.",
-    "C10": " Also: an integer-typed query matrix and a label pair of unequal-length strings.",
+    "C10": " Also: an integer-typed query matrix, a label pair of unequal-length strings, a node classifier that also has a decision_function with arbitrary values (nothing may be routed by it).",
     "C11": " Also: caller-supplied column names that contain one another; a flag changed by set_params followed by a refit on the same width.",
     "C12": " Also: trees numbered level by level (best-first builder); the compiled tree against numpy.digitize at x = NaN and with uint8/int32/float32 edges.",
     "C13": " Also: the transformer given as an object is cloned, never fitted; sample_weight (constant or varying) reaches the inner classifier / regressor together with the transformed target.",
@@ -159,9 +160,9 @@ EXTRA = {
     "C15": " Also: set_params(model=new) alone then fit/transform; stacking fitted with sample_weight; a fitted composite estimator (state in its parts) behind a frozen TransferTransformer; models that update their arrays in place.",
     "C16": " Also: enumerate_pipeline_models over 7x7 ColumnTransformer column selections (scalar 0, empty list, names...); the caller refills the same array/frame in place and calls again: instrumented pipeline == never-instrumented twin.",
     "C17": " Also: after the members are replaced as a new fit does, the same batch object is answered by the new members; a 1030-row batch with symbolic last rows; n_jobs in {2,3} at prediction time.",
-    "C18": " Also: every (i, j, draw) is learnt by its own fresh clone and the model given is never trained.",
+    "C18": " Also: every (i, j, draw) is learnt by its own fresh clone and the model given is never trained; an integer-typed table; 4 draws.",
     "C19": " Also: falsy categories ('' and 0); skip_errors set through set_params; an object fitted and used on another table before; a table to transform with permuted columns.",
-    "C20": " Also: a model object that framed another series with another past before (set_params in between); if the code under test takes len() of the series the claim degrades to lengths up to min+12 and says so.",
+    "C20": " The feature and target tables are allocated with the series' dtype (dtype provenance tokens). Also: a model object that framed another series with another past before (set_params in between); if the code under test takes len() of the series the claim degrades to lengths up to min+12 and says so.",
 }
 for _pid, _txt in EXTRA.items():
     if _pid in CHECKS:
